@@ -1,4 +1,4 @@
 SPECIFICATION TraceSpec
-INVARIANTS NotAccepted Converged TreeAsDocumented
+INVARIANTS Converged TreeAsDocumented
 CONSTRAINT Track
 POSTCONDITION Report
